@@ -49,6 +49,30 @@ CLAIMED = {
         "note": "Trusted: Lean kernel + 3 standard axioms; hand-written model of allocation (Vec growth = array append); known finding D10.",
         "design_ref": "DESIGN.md §7 C18",
     },
+    "C03": {
+        "text": "Lean 4 theorems (2-D): a generic BFS lemma (result starts with the dart, no duplicates, no null dart, exactly the "
+                "reachable non-null darts, fuel n+1 suffices) instantiated for every orbit policy incl. arbitrary Custom slices; on WF "
+                "maps the generator sets of vertex/edge/face are inverse-closed so the orbit is the equivalence class; vertex/edge/face "
+                "ids are the minimum of the cell (incl. the edge shortcut), equal ids iff same cell; iterators are strictly increasing and "
+                "yield exactly the ids of in-use darts; linear policies agree on closed cells; transactional = plain. Tie: exhaustive "
+                "WF 2-maps n<=4 x all darts x 14 policies x all id/iterator calls on the real CMap2 vs the model, plus an independent "
+                "Python closure oracle.",
+        "note": "Trusted: Lean kernel + 3 standard axioms; hand-written model. The 3-D clauses (CMap3 orbits/ids/iterators) are covered by "
+                "the correspondence stream only (no theorem yet).",
+        "design_ref": "DESIGN.md §7 C03, Appendix A2",
+    },
+    "C04": {
+        "text": "Lean 4 theorems for every attribute configuration (any storages, laws, order): a successful 1-/2-sew (1-/2-unsew) changes "
+                "the topology exactly as the link (unlink); in every storage bound to the cell kind — independently of the others — the new "
+                "id (computed after the link) carries merge*(values at the two old ids computed before), old ids are cleared, coinciding "
+                "old ids only move the value (repaired defect D2), every other slot of every storage is unchanged; unsew mirrored with "
+                "split*; BadGeometry refusal exactly when all four coordinates are defined and the direction test fails; a rejected law "
+                "fails the call. Tie: exhaustive WF 2-maps n<=3/4 x all sews x value patterns with free-term attribute values on the "
+                "real CMap2 vs the model; Python oracle recomputes CELLS independently and checks merge/split placement per cell.",
+        "note": "Trusted: Lean kernel + 3 standard axioms; hand-written model. Not proved: that the computed ids are the cells' minima "
+                "before/after a link combine as 'new cell = union of two old cells' (cell calculus) — evaluated by the oracle on the real code.",
+        "design_ref": "DESIGN.md §7 C04",
+    },
 }
 
 REASONS_NOT_YET = "check not built yet in this round (planned, see DESIGN.md §7); no claim is made"
